@@ -797,7 +797,10 @@ impl RuleCatalog {
         let content = serde_json::to_string_pretty(&catalog_file)
             .map_err(|e| format!("Failed to serialize catalog: {e}"))?;
 
-        fs::write(&self.catalog_path, content)
+        // Write to a temp file, fsync it, rename it over the catalog and fsync the directory:
+        // rewriting the catalog in place leaves an empty or torn file after a crash between
+        // the truncation and the write, and the store then refuses to open.
+        write_file_atomically(&self.catalog_path, content.as_bytes())
             .map_err(|e| format!("Failed to write catalog: {e}"))?;
 
         self.dirty = false;
@@ -823,6 +826,29 @@ impl RuleCatalog {
 }
 
 // Tests
+/// Replace `path` by `content` so that a crash at any point leaves either the old or the new
+/// file: write-to-temp, fsync, rename, fsync of the directory.
+pub(crate) fn write_file_atomically(path: &std::path::Path, content: &[u8]) -> std::io::Result<()> {
+    use std::io::Write;
+    let tmp_name = format!(
+        "{}.tmp",
+        path.file_name().unwrap_or_default().to_string_lossy()
+    );
+    let tmp_path = path.with_file_name(tmp_name);
+    {
+        let mut file = fs::File::create(&tmp_path)?;
+        file.write_all(content)?;
+        file.sync_all()?;
+    }
+    fs::rename(&tmp_path, path)?;
+    if let Some(parent) = path.parent() {
+        if let Ok(dir) = fs::File::open(parent) {
+            let _ = dir.sync_all();
+        }
+    }
+    Ok(())
+}
+
 #[cfg(test)]
 #[allow(clippy::unwrap_used)]
 mod tests {
